@@ -260,6 +260,35 @@ def extract():
     return units, checks, poles, doc, interps, problems
 
 
+DOP_GUARD_DOCUMENTED = "not np.isfinite(np.linalg.cond(Q))"
+
+
+def dop_guard():
+    """the test with which compute_dops refuses a geometry (`if <test>: ... return None, None, None, None, None`), read
+    from the source: (normalised source text, condition-number limit or None, problems).  Recognised forms:
+    `not np.isfinite(np.linalg.cond(Q))` - no finite limit, only a design of infinite condition number is refused - and
+    `np.linalg.cond(Q) > <number>` - that limit."""
+    import ast
+
+    src = (REPO / "midgard" / "gnss" / "compute_dops.py").read_text(encoding="utf-8")
+    tests = []
+    for node in ast.walk(ast.parse(src)):
+        if isinstance(node, ast.If):
+            for st in node.body:
+                if isinstance(st, ast.Return) and isinstance(st.value, ast.Tuple) and st.value.elts and \
+                        all(isinstance(e, ast.Constant) and e.value is None for e in st.value.elts):
+                    tests.append(node.test)
+    if len(tests) != 1:
+        return "<%d tests>" % len(tests), None, [f"compute_dops: {len(tests)} guards returning None found, expected one"]
+    text = ast.unparse(tests[0])
+    if text == DOP_GUARD_DOCUMENTED:
+        return text, None, []
+    m = re.fullmatch(r"np\.linalg\.cond\(Q\) > ([0-9.eE+]+)", text)
+    if m:
+        return text, Fraction(m.group(1)), []
+    return text, None, [f"compute_dops: the singularity test `{text}` is not a test of the condition number of Q"]
+
+
 def generate():
     """writes Generated/C20Tables.lean; returns (changed, info) with info for the harness"""
     units, checks, poles, doc, interps, problems = extract()
@@ -279,11 +308,18 @@ def generate():
     o.append(",\n".join(
         f"  ⟨{lean_str(m)}, {lean_str(p)}, {rat(w[0])}, {rat(w[1])}, {rat(w[2])}, {rat(c)}, {'true' if k else 'false'}⟩"
         for m, p, w, c, k in poles))
+    gtext, glimit, gproblems = dop_guard()
+    problems = problems + gproblems
     o += ["]", "", "def interpolators : List String := [" + ", ".join(lean_str(s) for s in interps) + "]", "",
+          "/-- the test with which `compute_dops` refuses a geometry (returns `None` x 5), as written in the source -/",
+          "def dopGuardSource : String := " + lean_str(gtext), "",
+          "/-- the limit that test puts on the condition number of `HᵀH` (`none`: no finite limit - only a design whose",
+          "condition number is not finite, i.e. a singular one, is refused) -/",
+          "def dopCondLimit : Option Rat := " + ("none" if glimit is None else f"some ({rat(glimit)})"), "",
           "end Midgard.Generated.C20", ""]
     changed = write_if_changed("C20Tables.lean", "\n".join(o))
     return changed, {"units": units, "checks": checks, "poles": poles, "doc": doc, "interpolators": interps,
-                     "problems": problems}
+                     "problems": problems, "dop_guard": (gtext, glimit)}
 
 
 if __name__ == "__main__":
